@@ -4,7 +4,8 @@
 //! The plan comes as arguments (one token each):
 //!   bin=<path> arg=<a>.. env=<K=v>.. cwd=<dir> uid=<n> gid=<n> pg=<n>
 //!   in=|out=|err=<inherit|null|pipe|fd:N>  pre=<code>..   (0 ok, >0 Os error, -1 error without code)
-//!   wait=try  (Child::try_wait loop instead of Child::wait)  bulk=1 (Command::args / envs)
+//!   wait=<op>,<op>..  the caller's calls on the Child: wait | try (one try_wait) | poll (stdin closed,
+//!   try_wait until not None); default none.   bulk=1 (Command::args / envs)
 //!   feed=<text> (written to the Child's stdin pipe before waiting)
 //! Everything is reported through markers (writes to descriptor -1) which the tracer logs together
 //! with the descriptor table of the marking task:
@@ -72,7 +73,7 @@ pub fn main() -> i32 {
     let (mut uid, mut gid, mut pg) = (None, None, None);
     let (mut sin, mut sout, mut serr) = (None, None, None);
     let mut pre: Vec<i32> = Vec::new();
-    let mut try_mode = false;
+    let mut ops: Vec<String> = Vec::new();
     let mut bulk = false;
     let mut feed: Option<String> = None;
     for a in tiny_std::env::args().skip(1) {
@@ -90,7 +91,7 @@ pub fn main() -> i32 {
             "out" => sout = stdio(v),
             "err" => serr = stdio(v),
             "pre" => pre.push(num(v)),
-            "wait" => try_mode = v == "try",
+            "wait" => ops = v.split(',').filter(|x| !x.is_empty()).map(String::from).collect(),
             "bulk" => bulk = true,
             "feed" => feed = Some(String::from(v)),
             _ => return 2,
@@ -170,32 +171,38 @@ pub fn main() -> i32 {
             use tiny_std::io::Write as _;
             let _ = p.write(f.as_bytes());
         }
-        let waited = if try_mode {
-            // Child::try_wait until the child is gone (stdin pipe closed first, like `wait` does)
-            drop(child.stdin.take());
-            loop {
-                match child.try_wait() {
-                    Ok(Some(st)) => break Ok(st),
-                    Ok(None) => unsafe {
-                        let ts: [i64; 2] = [0, 2_000_000];
-                        sc::syscall!(NANOSLEEP, ts.as_ptr(), 0);
-                    },
-                    Err(e) => break Err(e),
+        for op in ops.iter() {
+            let r: tiny_std::Result<Option<i32>> = match op.as_str() {
+                "wait" => child.wait().map(Some),
+                "try" => child.try_wait(),
+                _ => {
+                    // stdin pipe closed first, like `wait` does
+                    drop(child.stdin.take());
+                    loop {
+                        match child.try_wait() {
+                            Ok(None) => unsafe {
+                                let ts: [i64; 2] = [0, 2_000_000];
+                                sc::syscall!(NANOSLEEP, ts.as_ptr(), 0);
+                            },
+                            other => break other,
+                        }
+                    }
+                }
+            };
+            m.clear();
+            let _ = write!(m, "MARK:waited:{op}:");
+            match r {
+                Ok(Some(st)) => {
+                    let _ = write!(m, "ok:{st}");
+                }
+                Ok(None) => m.push_str("none:0"),
+                Err(e) => {
+                    m.push_str("err:");
+                    err_code(&e, &mut m);
                 }
             }
-        } else {
-            child.wait()
-        };
-        match waited {
-            Ok(st) => {
-                let _ = write!(m, "MARK:waited:ok:{st}");
-            }
-            Err(e) => {
-                m.push_str("MARK:waited:err:");
-                err_code(&e, &mut m);
-            }
+            mark(&m);
         }
-        mark(&m);
     }
     mark("MARK:spawn:end");
     0
